@@ -93,6 +93,12 @@ var props = map[string]*propCfg{}
 func init() {
 	props["C10"] = &propCfg{Scenarios: []scenarioRef{{"transfer_clean", 2}, {"transfer_byz", 3}}, Level: "exploration",
 		Rule: "plans (layout, knobs, actors, fault steps) generated from the seed; a run is non-trivial if at least one piece write reached the simulated disk; distinct = distinct event-trace hashes among non-trivial runs"}
+	props["C03"] = &propCfg{Scenarios: []scenarioRef{{"seeding", 1}}, Level: "exploration",
+		Rule: "seeding plans from the seed: layout, read-cache block size/capacity/TTL, parallel reads, request-queue and unchoke limits, partial seed, disk read errors, 1-5 scripted leechers issuing generated requests (aligned, unaligned, crossing cache-block multiples, invalid, for missing pieces, while choked, cancels); non-trivial if at least one block was received and checked; distinct = distinct event-trace hashes among non-trivial runs"}
+	props["C11"] = &propCfg{Scenarios: []scenarioRef{{"seeding", 2}, {"transfer_byz", 2}, {"transfer_clean", 1}}, Level: "exploration",
+		Rule: "every byte the SUT emits to a scripted peer passes a strict decoder under PRNG fragmentation (handshake, core, fast and extension messages, ut_metadata, PEX); seeding runs also compare the upload counter with the piece payload bytes seen by a socket tap; non-trivial if a piece was written to disk or a block was uploaded; distinct = distinct event-trace hashes among non-trivial runs"}
+	props["C09"] = &propCfg{Scenarios: []scenarioRef{{"transfer_byz", 3}, {"transfer_clean", 1}}, Level: "exploration",
+		Rule: "each request a scripted peer receives is checked against that peer's own view (advertised pieces, choke state / allowed-fast, haves sent by the SUT, one piece per peer, request-queue limit) and Stats().Pieces.Available against the union of settled peers; non-trivial if at least one piece write happened; distinct = distinct event-trace hashes among non-trivial runs"}
 	props["C01"] = &propCfg{Scenarios: []scenarioRef{{"transfer_byz", 4}, {"transfer_clean", 1}}, Level: "exploration",
 		Rule: "plans generated from the seed with byzantine peers / faulty web seeds / stop-start commands; non-trivial if at least one piece write reached the simulated disk; distinct = distinct event-trace hashes among non-trivial runs"}
 }
@@ -415,8 +421,8 @@ func minimise(r *runner, planBytes []byte, want *Violation, budget int) ([]byte,
 	}
 	// find the scenario sub-plan (first object-valued key other than the header)
 	var sub string
-	for _, k := range []string{"transfer", "lifecycle", "tracker", "registry", "generic"} {
-		if _, ok := plan[k].(map[string]any); ok {
+	for k, v := range plan {
+		if _, ok := v.(map[string]any); ok && k != "generic" {
 			sub = k
 		}
 	}
